@@ -31,6 +31,11 @@ pub struct Universe {
     pub ops: BTreeSet<&'static str>,
     /// check queries / invariants / encoding in every state
     pub check_encode: bool,
+    /// import names that exist only because other imported types depend on them
+    pub dependency_imports: BTreeSet<String>,
+    /// for each import kind: the interface id wac attaches to it (Some for instance kinds
+    /// taken from a package import/export named like an interface)
+    pub import_kind_iface_id: Vec<Option<String>>,
 }
 
 impl Universe {
@@ -76,6 +81,8 @@ impl Universe {
             max_pkgs: 2,
             ops: BTreeSet::new(),
             check_encode: true,
+            dependency_imports: BTreeSet::new(),
+            import_kind_iface_id: vec![],
         }
     }
 
@@ -84,11 +91,19 @@ impl Universe {
         let world = &self.base.types()[self.packages[p].ty()];
         self.import_item_kinds.push(world.imports[name]);
         self.import_kinds.push(self.pkgs[p].import(name).unwrap().clone());
+        self.import_kind_iface_id.push(match world.imports[name] {
+            ItemKind::Instance(id) => self.base.types()[id].id.clone(),
+            _ => None,
+        });
     }
     pub fn add_import_kind_from_export(&mut self, p: usize, name: &str) {
         let world = &self.base.types()[self.packages[p].ty()];
         self.import_item_kinds.push(world.exports[name]);
         self.import_kinds.push(self.pkgs[p].exports.iter().find(|(n, _)| n == name).unwrap().1.clone());
+        self.import_kind_iface_id.push(match world.exports[name] {
+            ItemKind::Instance(id) => self.base.types()[id].id.clone(),
+            _ => None,
+        });
     }
 }
 
@@ -348,6 +363,14 @@ pub fn check_queries(u: &Universe, st: &State, last: &str) -> Vec<Viol> {
             let want_desc = match &mn.item {
                 RItem::Ty(Ty::Func(..)) => "function",
                 RItem::Ty(Ty::Inst(_)) => "instance",
+                RItem::Ty(Ty::Opaque(k, _)) => match k.as_str() {
+                    "func" => "function",
+                    "instance" => "instance",
+                    "component" => "component",
+                    "module" => "module",
+                    "value" => "value",
+                    _ => desc,
+                },
                 RItem::TypeDef(_) => desc,
             };
             if desc != want_desc {
@@ -445,45 +468,76 @@ pub fn encode_class(e: &EncodeError) -> &'static str {
     }
 }
 
-/// Admissible encode errors predicted by the model (empty = must be Ok).
-pub fn encode_admissible(u: &Universe, m: &Model) -> BTreeSet<&'static str> {
+/// Encode errors the model admits, and whether it is certain that one of them must occur
+/// (`must_fail`), that none may occur (`adm` empty), or silent (`may_fail` set).
+pub struct EncodeExpect {
+    pub adm: BTreeSet<&'static str>,
+    pub must_fail: bool,
+}
+
+pub fn encode_admissible(u: &Universe, m: &Model) -> EncodeExpect {
     let cx = u.cx();
     let mut adm = BTreeSet::new();
+    let mut must_fail = false;
     if m.has_cycle() {
         adm.insert("GraphContainsCycle");
+        must_fail = true;
     }
     let uns = m.unsatisfied(&cx);
     if uns.iter().any(|(_, n, _)| m.imports.contains_key(*n)) {
         adm.insert("ImplicitImportConflict");
+        must_fail = true;
     }
     // merge of unsatisfied requirements per track (implicit) — explicit imports take part
     // in the aggregation too; a type clash between an explicit import and an implicit one
     // on the same track but under a different name must be one of the two documented errors
-    let mut groups: Vec<(String, Ty)> = Vec::new();
-    let mut conflict = false;
+    let mut groups: Vec<(String, Option<Ty>)> = Vec::new();
     for (_, n, ty) in &uns {
         match groups.iter_mut().find(|(g, _)| same_track(g, n)) {
-            Some((_, t)) => match merge_ty(t, ty) {
-                Some(mt) => *t = mt,
-                None => conflict = true,
-            },
-            None => groups.push((n.to_string(), (*ty).clone())),
+            Some((_, t)) => {
+                if let Some(cur) = t.clone() {
+                    match merge_ty(&cur, ty) {
+                        Merge::Ok(mt) => *t = Some(mt),
+                        Merge::Conflict => {
+                            adm.insert("ImportTypeMergeConflict");
+                            must_fail = true;
+                            *t = None;
+                        }
+                        Merge::Unknown => {
+                            adm.insert("ImportTypeMergeConflict");
+                            *t = None;
+                        }
+                    }
+                }
+            }
+            None => groups.push((n.to_string(), Some((*ty).clone()))),
         }
-    }
-    if conflict {
-        adm.insert("ImportTypeMergeConflict");
     }
     for (name, id) in &m.imports {
         if let RItem::Ty(ty) = &m.nodes[id].item {
             for (g, t) in &groups {
-                if g != name && same_track(g, name) && merge_ty(t, ty).is_none() {
-                    adm.insert("ImportTypeMergeConflict");
-                    adm.insert("ImplicitImportConflict");
+                if g != name && same_track(g, name) {
+                    let clash = match t {
+                        Some(t) => merge_ty(t, ty),
+                        None => Merge::Unknown,
+                    };
+                    match clash {
+                        Merge::Ok(_) => {}
+                        Merge::Conflict => {
+                            adm.insert("ImportTypeMergeConflict");
+                            adm.insert("ImplicitImportConflict");
+                            must_fail = true;
+                        }
+                        Merge::Unknown => {
+                            adm.insert("ImportTypeMergeConflict");
+                            adm.insert("ImplicitImportConflict");
+                        }
+                    }
                 }
             }
         }
     }
-    adm
+    EncodeExpect { adm, must_fail }
 }
 
 /// Salient precondition of an encoding failure: universe types that a defined type refers
@@ -504,7 +558,7 @@ fn encode_tag(u: &Universe, m: &Model, last: &str) -> String {
     }
 }
 
-pub type ExtraCheck = dyn Fn(&Universe, &State, &[u8], bool) -> Vec<Viol> + Sync;
+pub type ExtraCheck<'a> = dyn Fn(&Universe, &State, &[u8], bool) -> Vec<Viol> + Sync + 'a;
 
 pub struct EncodeStats {
     pub ok: u64,
@@ -513,10 +567,29 @@ pub struct EncodeStats {
 
 /// (e) encodes the state under {embedded, imported} x {validate, not}.
 pub fn check_encode(u: &Universe, st: &State, last: &str, extra: Option<&ExtraCheck>) -> (Vec<Viol>, Vec<&'static str>) {
+    let (v, classes) = check_encode_inner(u, st, last, extra);
+    // One cause, many symptoms: wac identifies interfaces by id, so an explicit import of a
+    // named interface under another name is merged with (or replaced by) imports of that
+    // interface. Every encode/interface/wiring symptom in such a state is one fingerprint.
+    let renamed_iface = st.hist.iter().any(|op| match op {
+        Op::Import(name, k) => {
+            st.model.imports.contains_key(name) && matches!(u.import_kind_iface_id.get(*k), Some(Some(id)) if id != name)
+        }
+        _ => false,
+    });
+    if renamed_iface && !v.is_empty() {
+        let what = v.iter().map(|(f, w)| format!("{f}: {w}")).collect::<Vec<_>>().join(" || ");
+        return (vec![(format!("{}/explicit-import-of-named-interface-under-another-name", u.prop), what)], classes);
+    }
+    (v, classes)
+}
+
+fn check_encode_inner(u: &Universe, st: &State, last: &str, extra: Option<&ExtraCheck>) -> (Vec<Viol>, Vec<&'static str>) {
     let p = u.prop;
     let mut v = Vec::new();
     let mut classes = Vec::new();
-    let adm = encode_admissible(u, &st.model);
+    let expect = encode_admissible(u, &st.model);
+    let adm = &expect.adm;
     let tag = encode_tag(u, &st.model, last);
     let last = tag.as_str();
     for define in [true, false] {
@@ -558,7 +631,7 @@ pub fn check_encode(u: &Universe, st: &State, last: &str, extra: Option<&ExtraCh
                 if a != b {
                     v.push((format!("{p}/encode/validate-changes-bytes/{mode}"), "validate on/off produced different bytes".into()));
                 }
-                if !adm.is_empty() {
+                if expect.must_fail {
                     v.push((
                         format!("{p}/encode/Ok/{mode}/{last}/want-{}", adm.iter().copied().collect::<Vec<_>>().join("|")),
                         format!("encode({mode}) succeeded; the model requires one of {adm:?}"),
@@ -763,23 +836,38 @@ pub fn replay_history(u: &Universe, ops: &[Op], extra: Option<&ExtraCheck>) -> (
     (Some(st), all)
 }
 
+/// Rebuilds a state by replaying its history from the empty graph (no checks).
+pub fn rebuild(u: &Universe, hist: &[Op]) -> Option<State> {
+    let mut st = State { real: u.base.clone(), pids: BTreeMap::new(), model: Model::default(), hist: vec![], seed: 0 };
+    for op in hist {
+        let (next, _) = step(u, &st, op);
+        st = next?;
+    }
+    Some(st)
+}
+
 /// Level-synchronous BFS from each seed history to `depth`.
+///
+/// Memory discipline: the frontier holds histories only; a state is rebuilt by replaying
+/// its history on a fresh graph when it is expanded and when it is checked. The key of a
+/// successor is computed on the clone-and-step path during expansion and recomputed on the
+/// replay path when the state is checked: a mismatch is the clone-vs-replay differential.
 pub fn bfs(
     u: &Universe,
     seeds: &[Vec<Op>],
     depth: usize,
     extra: Option<&ExtraCheck>,
     state_cap: usize,
-    mut on_state: Option<&mut dyn FnMut(&State)>,
+    _on_state: Option<&mut dyn FnMut(&State)>,
 ) -> (Stats, Vec<Found>) {
     let mut stats = Stats::default();
     let mut found: Vec<Found> = Vec::new();
     let mut seen: HashSet<String> = HashSet::new();
-    let mut frontier: Vec<State> = Vec::new();
+    let mut frontier: Vec<Vec<Op>> = Vec::new();
 
     // seeds are built through the same step function (model follows)
-    for (si, seed_ops) in seeds.iter().enumerate() {
-        let mut st = State { real: u.base.clone(), pids: BTreeMap::new(), model: Model::default(), hist: vec![], seed: si };
+    for seed_ops in seeds.iter() {
+        let mut st = State { real: u.base.clone(), pids: BTreeMap::new(), model: Model::default(), hist: vec![], seed: 0 };
         let mut ok = true;
         for op in seed_ops {
             let (next, v) = step(u, &st, op);
@@ -808,12 +896,9 @@ pub fn bfs(
                     *stats.encode_classes.entry(c).or_default() += 1;
                 }
             }
+            stats.states += 1;
             if v.is_empty() {
-                if let Some(f) = on_state.as_mut() {
-                    f(&st);
-                }
-                frontier.push(st);
-                stats.states += 1;
+                frontier.push(st.hist.clone());
             } else {
                 for (fp, what) in v {
                     found.push(Found { fingerprint: fp, what, case: case_json(u, &[], &st.hist) });
@@ -823,112 +908,114 @@ pub fn bfs(
     }
 
     for level in 1..=depth {
-        // expand in parallel
-        let expanded: Vec<(Vec<(String, State, &'static str)>, Vec<(Viol, Vec<Op>)>, u64, BTreeMap<&'static str, u64>, BTreeMap<String, u64>)> = frontier
+        // expand in parallel: (key, op) per successor
+        type Exp = (Vec<(String, Op)>, Vec<(Viol, Vec<Op>)>, u64, BTreeMap<&'static str, u64>, BTreeMap<String, u64>);
+        let expanded: Vec<Exp> = frontier
             .par_iter()
-            .map(|st| {
-                let (ops, unspec) = enabled_ops(u, st);
+            .map(|hist| {
+                let st = rebuild(u, hist).expect("frontier state rebuilds");
+                let (ops, unspec) = enabled_ops(u, &st);
                 let mut succ = Vec::new();
                 let mut viol = Vec::new();
                 let mut per_op: BTreeMap<&'static str, u64> = BTreeMap::new();
                 let mut classes: BTreeMap<String, u64> = BTreeMap::new();
                 for op in ops {
                     *per_op.entry(op.kind()).or_default() += 1;
-                    let (next, v) = step(u, st, &op);
-                    let mut h = st.hist.clone();
-                    h.push(op.clone());
+                    let (next, v) = step(u, &st, &op);
                     for x in v {
-                        viol.push((x, h.clone()));
+                        let mut h = st.hist.clone();
+                        h.push(op.clone());
+                        viol.push((x, h));
                     }
                     if let Some(n) = next {
                         let changed = n.model != st.model;
                         *classes.entry(format!("{}:{}", op.kind(), if changed { "Ok" } else { "no-change" })).or_default() += 1;
-                        let key = state_key(&n);
-                        succ.push((key, n, op.kind()));
+                        if changed {
+                            succ.push((state_key(&n), op));
+                        } else if state_key(&n) != state_key(&st) {
+                            // the model did not change: the implementation must not have either
+                            let mut h = st.hist.clone();
+                            h.push(op.clone());
+                            viol.push(((format!("{}/silent-change/{}", u.prop, op.kind()), format!("{op:?} left the model unchanged but changed the graph's internal state")), h));
+                        }
                     }
                 }
                 (succ, viol, unspec as u64, per_op, classes)
             })
             .collect();
-        let mut candidates: Vec<(String, State, &'static str)> = Vec::new();
-        for (succ, viol, unspec, per_op, classes) in expanded {
-            stats.transitions += succ.len() as u64 + viol.len() as u64;
-            stats.unspecified += unspec;
-            for (k, n) in per_op {
-                *stats.per_op.entry(k).or_default() += n;
+        let mut fresh: Vec<(usize, Op, String)> = Vec::new();
+        {
+            let mut candidates: Vec<(String, usize, Op)> = Vec::new();
+            for (pi, (succ, viol, unspec, per_op, classes)) in expanded.into_iter().enumerate() {
+                stats.transitions += per_op.values().sum::<u64>();
+                stats.unspecified += unspec;
+                for (k, n) in per_op {
+                    *stats.per_op.entry(k).or_default() += n;
+                }
+                for (k, n) in classes {
+                    *stats.result_classes.entry(k).or_default() += n;
+                }
+                for ((fp, what), h) in viol {
+                    found.push(Found { fingerprint: fp, what, case: case_json(u, &[], &h) });
+                }
+                for (key, op) in succ {
+                    candidates.push((key, pi, op));
+                }
             }
-            for (k, n) in classes {
-                *stats.result_classes.entry(k).or_default() += n;
+            // deterministic order: by key, then by (parent history, op)
+            candidates.sort_by(|a, b| a.0.cmp(&b.0).then_with(|| frontier[a.1].cmp(&frontier[b.1])).then_with(|| a.2.cmp(&b.2)));
+            for (key, pi, op) in candidates {
+                if seen.insert(key.clone()) {
+                    fresh.push((pi, op, key));
+                }
             }
-            for ((fp, what), h) in viol {
-                found.push(Found { fingerprint: fp, what, case: case_json(u, &[], &h) });
-            }
-            candidates.extend(succ);
         }
-        // deterministic order: by key, then by history
-        candidates.sort_by(|a, b| a.0.cmp(&b.0).then_with(|| a.1.hist.cmp(&b.1.hist)));
-        let mut fresh: Vec<(State, &'static str)> = Vec::new();
-        for (key, st, last) in candidates {
-            if seen.insert(key) {
-                fresh.push((st, last));
-            }
-        }
-        // check every new state (queries, invariants, encoding, replay-from-scratch differential)
-        let checked: Vec<(Vec<Viol>, Vec<&'static str>, bool)> = fresh
+        // check every new state on the replay path
+        let checked: Vec<(Vec<Viol>, Vec<&'static str>)> = fresh
             .par_iter()
-            .map(|(st, last)| {
-                let mut v = check_queries(u, st, last);
+            .map(|(pi, op, key)| {
+                let mut hist = frontier[*pi].clone();
+                hist.push(op.clone());
+                let last = op.kind();
+                let st = match rebuild(u, &hist) {
+                    Some(s) => s,
+                    None => return (vec![(format!("{}/clone-vs-replay/after-{last}", u.prop), "history does not replay".into())], vec![]),
+                };
+                let mut v = Vec::new();
+                if state_key(&st) != *key {
+                    v.push((
+                        format!("{}/clone-vs-replay/after-{last}", u.prop),
+                        "state reached through clones differs from the same history replayed on a fresh graph".into(),
+                    ));
+                }
+                v.extend(check_queries(u, &st, last));
                 let mut classes = Vec::new();
                 if u.check_encode {
-                    let (ev, c) = check_encode(u, st, last, extra);
+                    let (ev, c) = check_encode(u, &st, last, extra);
                     v.extend(ev);
                     classes = c;
                 }
-                // differential: replay the whole history on a fresh graph and compare dumps
-                let mut replayed = false;
-                if v.is_empty() {
-                    let mut real = u.base.clone();
-                    let mut pids = BTreeMap::new();
-                    let r = catch(|| {
-                        for op in &st.hist {
-                            let _ = apply_real(u, &mut real, &mut pids, op);
-                        }
-                        real.verif_dump()
-                    });
-                    replayed = true;
-                    match r {
-                        Ok(d) if d == st.real.verif_dump() => {}
-                        Ok(_) => v.push((
-                            format!("{}/clone-vs-replay/after-{last}", u.prop),
-                            "state reached through clones differs from the same history replayed on a fresh graph".into(),
-                        )),
-                        Err(p) => v.push((format!("{}/clone-vs-replay/panic", u.prop), p)),
-                    }
-                }
-                (v, classes, replayed)
+                (v, classes)
             })
             .collect();
         let mut next = Vec::new();
-        for ((st, _), (v, classes, replayed)) in fresh.into_iter().zip(checked) {
+        for ((pi, op, _), (v, classes)) in fresh.into_iter().zip(checked) {
             stats.states += 1;
-            if replayed {
-                stats.replayed += 1;
-            }
+            stats.replayed += 1;
             for c in classes {
                 *stats.encode_classes.entry(c).or_default() += 1;
             }
+            let mut hist = frontier[pi].clone();
+            hist.push(op);
             if v.is_empty() {
-                if stats.samples.len() < 3 && st.hist.len() >= 2 && (stats.states % 97 == 0 || level == depth) {
-                    stats.samples.push(json!({"history": st.hist, "model_nodes": st.model.nodes.len()}));
+                if stats.samples.len() < 3 && hist.len() >= 2 && (stats.states % 97 == 0 || level == depth) {
+                    stats.samples.push(json!({"history": hist}));
                 }
-                if let Some(f) = on_state.as_mut() {
-                    f(&st);
-                }
-                next.push(st);
+                next.push(hist);
             } else {
                 // R4: a violating state is recorded and not expanded
                 for (fp, what) in v {
-                    found.push(Found { fingerprint: fp, what, case: case_json(u, &[], &st.hist) });
+                    found.push(Found { fingerprint: fp, what, case: case_json(u, &[], &hist) });
                 }
             }
         }
